@@ -526,3 +526,66 @@ func (e *Engine) frameObligations(c *Ctx, fn *ssa.Function, ct *Contract, f *fra
 			Clause: "modifies " + strings.Join(ct.Modifies, " ") + " (array " + name + " unchanged at pre-existing references)"})
 	}
 }
+
+// verifyGlobals: the package-level facts (`global` clauses) are proved as postconditions of the
+// package initialiser, executed symbolically from a state in which the package is not yet
+// initialised. Other packages' facts are assumed (each is proved for its own package).
+func (e *Engine) verifyGlobals(sf *SpecFile) *FuncReport {
+	sp := e.spkgs[sf.Pkg]
+	rep := &FuncReport{Func: "init of " + strings.TrimPrefix(sf.Pkg, repoMod+"/")}
+	if sp == nil {
+		return rep
+	}
+	fn := sp.Func("init")
+	if fn == nil {
+		return rep
+	}
+	c := newCtx(e, fn.String())
+	rep.Blocks = len(fn.Blocks)
+	for _, b := range fn.Blocks {
+		rep.Instrs += len(b.Instrs)
+	}
+	alloc0 := c.declare("alloc@0", "Int")
+	c.asserts = append(c.asserts, ge(alloc0, "1"))
+	st := State{heap: c.entryHeap(), alloc: allocPtr{base: alloc0}}
+	env := &specEnv{c: c, vars: map[string]sval{}, st: st, reach: sTrue, lets: map[string]ast.Expr{}, pkg: sp.Pkg, spkg: sp}
+	// facts of the other packages
+	for _, o := range e.specFiles {
+		if o == sf {
+			continue
+		}
+		for _, g := range o.Globals {
+			ne := *env
+			ne.pkg = e.pkgByPath(o.Pkg)
+			c.assume(sTrue, c.evalBool(&ne, g.Expr))
+		}
+	}
+	// not yet initialised
+	if g, ok := sp.Members["init$guard"].(*ssa.Global); ok {
+		v := c.load(st.heap, locOfRef(num(e.globalRef(g)), types.Typ[types.Bool]))
+		c.assume(sTrue, not(v[0]))
+	}
+	f := c.newFrame(fn, 0, nil)
+	f.top = true
+	f.run(nil, st, sTrue)
+	var conds []string
+	for _, ex := range f.exits {
+		conds = append(conds, ex.cond)
+	}
+	for _, g := range sf.Globals {
+		var goals []string
+		for _, ex := range f.exits {
+			post := &specEnv{c: c, vars: map[string]sval{}, st: ex.st, reach: ex.cond, lets: map[string]ast.Expr{}, pkg: sp.Pkg, spkg: sp}
+			goals = append(goals, implies(ex.cond, c.evalBool(post, g.Expr)))
+		}
+		c.addObl(&Obl{Name: fmt.Sprintf("%s.init/global[%s]", sf.Pkg, g.Text), Kind: "global", Cond: or(conds...), Goal: and(goals...), Clause: g.Text, Props: g.Props})
+	}
+	if len(f.exits) > 0 {
+		c.addObl(&Obl{Name: sf.Pkg + ".init/cover/exit", Kind: "cover", Cond: or(conds...), Goal: sTrue, ExpectSat: true})
+	}
+	rep.Notes = c.notes
+	rep.SpecErrs = c.specErrs
+	rep.Obls = c.obls
+	rep.Exits = len(f.exits)
+	return rep
+}
